@@ -310,6 +310,13 @@ pub fn run(ctx: &mut Ctx) {
             ctx.evaluations += 1;
             ctx.distinct.insert(sd);
             let case = Case { name: format!("race seed={} threads={}", sd, threads), lines: vec![format!("rsharness c16-race {} {}", sd, threads)], with_model: false };
+            if ctx.samples.len() < 3 {
+                let mut j = crate::json::J::obj();
+                j.set("child_process", crate::json::J::s(&format!("rsharness c16-race {} {}", sd, threads)));
+                j.set("what", crate::json::J::s("threads released together on different first touches of the lazy tables, then one encoder and one decoder bounced between three worker threads for 10 rounds x 3 configurations; every result compared with sequential recomputation"));
+                j.set("answer", crate::json::J::s(&match &r { Ok(s) => crate::ctx::short(s), Err(e) => crate::ctx::short(e) }));
+                ctx.sample(j);
+            }
             match r {
                 Ok(s) if s.starts_with("OK") => { ctx.count("jobs", &s); }
                 Ok(s) => ctx.oracle_fail(format!("concurrent use differs from sequential use: {}", s), &case, None),
